@@ -37,7 +37,7 @@ Qed.
 Definition ev_ok (wf : world) (e : tev) : Prop :=
   match e with
   | TBuild c p (Some i) _ => exists cd, find_class wf c = Some cd /\ i = build_meta cd p
-  | TPrune _ | TPruneErr _ | TRecFail _ => False
+  | TRecFail _ => False
   | _ => True
   end.
 Definition tr_ok (wf : world) (t : trace) : Prop := Forall (ev_ok wf) t.
@@ -103,46 +103,32 @@ Proof.
   - inversion E; subst. apply tr_ok_app. split; assumption.
 Qed.
 
-Lemma lnm_tr w x names c x' b e t : extends w wf -> ctx_local_names_match w x names c = (x', b, e, t) -> tr_ok wf t.
+Lemma lnm_tr w x names c x' b t : extends w wf -> ctx_local_names_match w x names c = (x', b, t) -> tr_ok wf t.
 Proof.
-  intros He E. unfold ctx_local_names_match in E. destruct (ctx_build w x c None) as [[x1 om] t1] eqn:E1.
+  intros He E. unfold ctx_local_names_match in E. destruct (memN c (unsup x)); [inversion E; subst; constructor|].
+  destruct (ctx_build w x c None) as [[x1 om] t1] eqn:E1.
   destruct (build_tr _ _ _ _ _ _ _ He E1) as [T1 Hn].
-  destruct om; [inversion E; subst; exact T1|]. rewrite (Hn eq_refl) in E. inversion E; subst. exact T1.
+  destruct om; [inversion E; subst; exact T1|]. destruct (find_class w c); inversion E; subst; exact T1.
 Qed.
 
-Lemma scan_types_tr fuel : forall w x names q i x' cs e t,
-  extends w wf -> scan_types fuel w x names q i = (x', cs, e, t) -> tr_ok wf t.
+Lemma scan_types_tr l : forall w x names x' cs t,
+  extends w wf -> scan_types w x names l = (x', cs, t) -> tr_ok wf t.
 Proof.
-  induction fuel as [|f IH]; intros w x names q i x' cs e t He E; cbn in E.
+  induction l as [|c l IH]; intros w x names x' cs t He E; cbn [scan_types] in E.
   - inversion E; subst. constructor.
-  - destruct (index_get (xsi x) q) as [l|]; [|inversion E; subst; constructor].
-    destruct (nth_error l i) as [c|]; [|inversion E; subst; constructor].
-    destruct (ctx_local_names_match w x names c) as [[[x1 ok] err] t1] eqn:E1.
-    pose proof (lnm_tr _ _ _ _ _ _ _ _ He E1) as T1.
-    destruct err; [inversion E; subst; exact T1|].
-    destruct (scan_types f w x1 names q (S i)) as [[[x2 cs2] e2] t2] eqn:E2.
-    pose proof (IH _ _ _ _ _ _ _ _ _ He E2) as T2. inversion E; subst. apply tr_ok_app. split; assumption.
+  - destruct (ctx_local_names_match w x names c) as [[x1 ok] t1] eqn:E1.
+    pose proof (lnm_tr _ _ _ _ _ _ _ He E1) as T1.
+    destruct (scan_types w x1 names l) as [[x2 cs2] t2] eqn:E2.
+    pose proof (IH _ _ _ _ _ _ He E2) as T2. inversion E; subst. apply tr_ok_app. split; assumption.
 Qed.
 
-Lemma scan_index_tr keys : forall w x names x' cs e t,
-  extends w wf -> scan_index w x names keys = (x', cs, e, t) -> tr_ok wf t.
-Proof.
-  induction keys as [|[q n] keys IH]; intros w x names x' cs e t He E; cbn [scan_index] in E.
-  - inversion E; subst. constructor.
-  - destruct (scan_types (S n) w x names q 0) as [[[x1 cs1] e1] t1] eqn:E1.
-    pose proof (scan_types_tr _ _ _ _ _ _ _ _ _ _ He E1) as T1.
-    destruct e1; [inversion E; subst; exact T1|].
-    destruct (scan_index w x1 names keys) as [[[x2 cs2] e2] t2] eqn:E2.
-    pose proof (IH _ _ _ _ _ _ _ He E2) as T2. inversion E; subst. apply tr_ok_app. split; assumption.
-Qed.
-
-Lemma find_by_fields_tr w x names x' oc e t :
-  extends w wf -> ctx_find_by_fields w x names = (x', oc, e, t) -> tr_ok wf t.
+Lemma find_by_fields_tr w x names x' oc t :
+  extends w wf -> ctx_find_by_fields w x names = (x', oc, t) -> tr_ok wf t.
 Proof.
   intros He E. unfold ctx_find_by_fields in E.
-  destruct (scan_index w (ctx_build_xsi w x) names _) as [[[x1 cs] e1] t1] eqn:E1.
-  pose proof (scan_index_tr _ _ _ _ _ _ _ _ He E1) as T1.
-  destruct e1; inversion E; subst; (apply tr_ok_app; split; [exact T1|constructor; [exact I|constructor]]).
+  destruct (scan_types w (ctx_build_xsi w x) names _) as [[x1 cs] t1] eqn:E1.
+  pose proof (scan_types_tr _ _ _ _ _ _ _ He E1) as T1.
+  inversion E; subst. apply tr_ok_app. split; [exact T1|constructor; [exact I|constructor]].
 Qed.
 
 (* clients that never call build_recursive *)
@@ -163,9 +149,9 @@ Proof.
   - destruct (ctx_find_types w x q) as [[x1 l] t1] eqn:E1. inversion E; subst. eapply find_types_tr; eauto.
   - unfold ctx_find_subclass in E. destruct (ctx_find_types w x q) as [[x1 l] t1] eqn:E1. inversion E; subst.
     eapply find_types_tr; eauto.
-  - destruct (ctx_find_by_fields w x names) as [[[x1 oc] e] t1] eqn:E1. inversion E; subst.
+  - destruct (ctx_find_by_fields w x names) as [[x1 oc] t1] eqn:E1. inversion E; subst.
     eapply find_by_fields_tr; eauto.
-  - destruct (ctx_local_names_match w x names c) as [[[x1 b] e] t1] eqn:E1. inversion E; subst. eapply lnm_tr; eauto.
+  - destruct (ctx_local_names_match w x names c) as [[x1 b] t1] eqn:E1. inversion E; subst. eapply lnm_tr; eauto.
   - destruct Hn.
   - inversion E; subst. constructor.
   - inversion E; subst. constructor.
@@ -185,7 +171,7 @@ Qed.
 Lemma tr_ok_quiet t : tr_ok wf t -> quiet t = true.
 Proof.
   induction 1 as [|e t He _ IH]; [reflexivity|]. cbn [quiet forallb] in *. fold (quiet t). rewrite IH.
-  destruct e as [c p [i|] g| | | | |]; cbn in *; try reflexivity; contradiction.
+  destruct e as [c p [i|] g| | |]; cbn in *; try reflexivity; contradiction.
 Qed.
 
 Lemma tr_ok_builds t c i : tr_ok wf t -> In (c, i) (builds_of t) ->
@@ -193,7 +179,7 @@ Lemma tr_ok_builds t c i : tr_ok wf t -> In (c, i) (builds_of t) ->
 Proof.
   intros H Hin. unfold builds_of in Hin. apply in_flat_map in Hin as [e [He Hin]].
   unfold tr_ok in H. rewrite Forall_forall in H. specialize (H _ He).
-  destruct e as [c' p [i'|] g| | | | |]; cbn in Hin; try contradiction.
+  destruct e as [c' p [i'|] g| | |]; cbn in Hin; try contradiction.
   destruct Hin as [Eq|[]]. inversion Eq; subst. cbn in H. destruct H as [cd [Hf ->]]. eauto.
 Qed.
 
